@@ -729,12 +729,29 @@ class Translator:
                     if d.get('kind') == 'TypedefDecl' and d.get('name') == name:
                         t = d.get('type', {})
                         self.tdcache[name] = (t.get('desugaredQualType') or t.get('qualType') or '').replace('const ', '').strip()
+                        if self.tdcache[name] == name and t.get('qualType', '').startswith('struct '):
+                            # typedef struct { ... } name;  -- clang calls the anonymous record 'struct name'
+                            self.tdcache[name] = t['qualType'].replace('const ', '').strip()
         return self.tdcache[name]
 
     def load_struct(self, name):
         for d in ast_docs(os.path.join(REPO, self.cur_file), name):
             if d.get('kind') == 'RecordDecl' and d.get('name') == name and d.get('completeDefinition'):
                 self.types.structs[name] = [(c['name'], qt(c)) for c in d.get('inner', []) if c['kind'] == 'FieldDecl']
+        if name not in self.types.structs:
+            # typedef struct { ... } name;  -- the record has no name of its own: find it through the typedef's ownedTagDecl
+            r = subprocess.run(['clang', '-fsyntax-only', '-w', '-D__NO_CTYPE', '-I', REPO, '-Xclang', '-ast-dump=json',
+                                os.path.join(REPO, self.cur_file)], stdout=subprocess.PIPE, stderr=subprocess.PIPE, text=True)
+            if r.returncode == 0:
+                top = json.loads(r.stdout).get('inner', [])     # node ids are only meaningful inside one dump
+                rid = None
+                for d in top:
+                    if d.get('kind') == 'TypedefDecl' and d.get('name') == name:
+                        for c in d.get('inner', []):
+                            rid = rid or c.get('ownedTagDecl', {}).get('id')
+                for d in top:
+                    if rid and d.get('kind') == 'RecordDecl' and d.get('id') == rid and d.get('completeDefinition'):
+                        self.types.structs[name] = [(c['name'], qt(c)) for c in d.get('inner', []) if c['kind'] == 'FieldDecl']
 
     def literal(self, node):
         v = node['value']          # a C literal text with quotes
